@@ -483,13 +483,14 @@ class Ctx:
                 return self.run_fn(self.fns[f.name + "::" + m.group(2)], [])
             # unresolved promoted constant (typically format-string pieces feeding a panic message)
             return Obj("promoted", "?", text=t)
-        if re.match(r"^(\w+::)*[A-Z]\w*$", t):
+        t_plain = strip_generics(t)
+        if re.match(r"^(\w+::)*[A-Z]\w*$", t_plain):
             # a unit struct (or unit enum variant) used as a value
-            segs = t.split("::")
+            segs = t_plain.split("::")
             if len(segs) >= 2 and self.src.variants("::".join(segs[:-1])) is not None \
                     and self.src.variant_index("::".join(segs[:-1]), segs[-1]) is not None:
                 return Agg("::".join(segs[:-1]), {}, segs[-1])
-            return Agg(t, {})
+            return Agg(t_plain, {})
         raise Unsupported("constant %r" % text)
 
     def operand(self, frame, op):
